@@ -31,10 +31,46 @@ def run(ctx: Ctx) -> None:
     S.writer_reader_agree(ctx, v, "C08.R4")
     rep.rule("C08.R5", "store_blob returns normally only after the commit marker is published (a stored key is reported present)")
     S.store_always_publishes(ctx, v, "C08.R5")
+    rep.rule("C08.R6", "committing a path removes / replaces nothing but that path's own entry; the cache wrapper answers path queries from the store")
+    S.confined_destruction(ctx, v, "C08.R6")
+    S.no_shared_removal(ctx, v, "C08.R6")
+    from .c12 import passthrough_rules
+    passthrough_rules(ctx, "C08.R6", only=["sync_paths", "fetch_paths"])
+    # blob round trip of the siblings: what store_blob writes under a key is what has_blob / fetch_blob look at
+    mem = ctx.prog.classes.get("dds.store.MemoryStore")
+    if mem is not None:
+        import ast as _ast
+        def attr_used(meth, store):
+            f_ = mem.methods.get(meth)
+            out = set()
+            if f_ is None:
+                return out
+            for n_ in f_.own_nodes():
+                if isinstance(n_, _ast.Attribute) and isinstance(n_.value, _ast.Name) and n_.value.id == "self":
+                    par_ = f_.module.parent.get(n_)
+                    is_store = isinstance(par_, _ast.Subscript) and isinstance(par_.ctx, _ast.Store)
+                    if is_store == store:
+                        out.add(n_.attr)
+            return out
+        w_ = attr_used("store_blob", True)
+        r1, r2 = attr_used("has_blob", False), attr_used("fetch_blob", False)
+        desc = "MemoryStore: store_blob fills the mapping that has_blob and fetch_blob read, keyed by the key"
+        if w_ and w_ <= r1 and w_ <= r2:
+            rep.ok("C08.R4", mem.qname, desc, mem.module.relpath)
+        else:
+            rep.bad("C08.R4", mem.qname, desc, mem.module.relpath, [f"written {sorted(w_)}, has_blob reads {sorted(r1)}, fetch_blob reads {sorted(r2)}"], "mem-blob", what="MemoryStore stores blobs where it does not look for them")
     # DBFS sibling
     c = ctx.prog.classes.get("dds.codecs.databricks.DBFSStore")
     if c is not None:
         m = StoreModel(ctx.prog, c, ctx._types)
+        wb = [e.term for e in m.effects_of("store_blob") if e.kind in ("CP", "WRITE_INPLACE", "PUT") and mentions_sym(e.term, "KEY")]
+        rb = [e.term for e in m.effects_of("fetch_blob") if e.kind in ("CP", "READ", "HEAD") for t_ in [e.src if e.kind == "CP" else e.term] if t_ is not None and mentions_sym(t_, "KEY")]
+        rbt = [(e.src if e.kind == "CP" else e.term) for e in m.effects_of("fetch_blob") if e.kind in ("CP", "READ", "HEAD") and mentions_sym(e.src if e.kind == "CP" else e.term, "KEY")]
+        descb = "DBFS: the blob and metadata names written by store_blob are the ones fetch_blob reads"
+        if wb and rbt and set(rbt) <= set(wb):
+            rep.ok("C08.R4", c.qname, descb, c.module.relpath)
+        else:
+            rep.bad("C08.R4", c.qname, descb, c.module.relpath, [f"written {[show(t) for t in wb]}", f"read {[show(t) for t in rbt]}"], "dbfs-blob", what="DBFS blobs are read from another name than they are written to")
         puts = [e.term for e in m.effects_of("sync_paths") if e.kind == "PUT" and mentions_sym(e.term, "PATH")]
         heads = [e.term for e in m.effects_of("fetch_paths") if e.kind == "HEAD" and mentions_sym(e.term, "PATH")]
         desc = "DBFS: redirect record written by sync_paths is the one fetch_paths reads"
